@@ -25,6 +25,15 @@ func TestC14MakeCorpus(t *testing.T) {
 	must(os.MkdirAll(dir, 0o755))
 	var exps []corpusExpect
 	n := 0
+	extend := os.Getenv("VERIF_EXTEND_CORPUS") == "1"
+	if extend {
+		// keep what is recorded, add files (operand bytes with positions of
+		// their own, runs that fail or warn at operand-bearing instructions)
+		b, err := os.ReadFile(filepath.Join(dir, "EXPECT.json"))
+		must(err)
+		must(json.Unmarshal(b, &exps))
+		n = len(exps)
+	}
 	add := func(origin string, file []byte, checkRef bool) {
 		f, err := bc.Decode(file)
 		must(err)
@@ -73,6 +82,38 @@ func TestC14MakeCorpus(t *testing.T) {
 		n++
 		must(os.WriteFile(filepath.Join(dir, e.File), file, 0o644))
 		exps = append(exps, e)
+	}
+	if extend {
+		got, fails := 0, 0
+		rapid.Check(t, func(t *rapid.T) {
+			if got >= 48 {
+				return
+			}
+			f, _, _ := bc.Assemble(t)
+			if len(f.Consts) >= 300 {
+				return
+			}
+			r := bc.Exec(f, 2000000)
+			if r.Internal != "" || r.Unspecified != "" {
+				return
+			}
+			if !(r.Failed || len(r.Warnings) > 0) && got-fails >= 8 {
+				return
+			}
+			before := len(exps)
+			add("asm2", f.Encode(), true)
+			if len(exps) > before {
+				got++
+				if r.Failed || len(r.Warnings) > 0 {
+					fails++
+				}
+			}
+		})
+		b, err := json.MarshalIndent(exps, "", " ")
+		must(err)
+		must(os.WriteFile(filepath.Join(dir, "EXPECT.json"), b, 0o644))
+		t.Logf("corpus now has %d files (%d added, %d of them failing or warning)", len(exps), got, fails)
+		return
 	}
 	// 1. the repository's own test data, compiled by the pinned build
 	for _, name := range []string{"basic_test.bcl", "big1.bcl"} {
